@@ -65,11 +65,11 @@ func runHistory(t *testing.T, r *vrep.Report, id int, cfg histCfg) {
 	// initial layout
 	for _, p := range splitPoints {
 		if rng.Intn(3) == 0 {
-			u.SplitAt([]byte(p))
+			u.C05SplitAt([]byte(p))
 		}
 	}
 	for i := 0; i < 3; i++ {
-		u.MoveLeader([]byte(keyUniverse[rng.Intn(len(keyUniverse))]), rng.Intn(3))
+		u.C05MoveLeader([]byte(keyUniverse[rng.Intn(len(keyUniverse))]), rng.Intn(3))
 	}
 	// build phase
 	for i := 0; i < cfg.nBuild; i++ {
@@ -100,11 +100,11 @@ func runHistory(t *testing.T, r *vrep.Report, id int, cfg histCfg) {
 			k := []byte(keyUniverse[rng.Intn(len(keyUniverse))])
 			switch rng.Intn(3) {
 			case 0:
-				u.SplitAt(pt)
+				u.C05SplitAt(pt)
 			case 1:
-				u.MergeAt(k)
+				u.C05MergeAt(k)
 			default:
-				u.MoveLeader(k, rng.Intn(3))
+				u.C05MoveLeader(k, rng.Intn(3))
 			}
 		}
 	}
